@@ -286,6 +286,14 @@ Qed.
 (* ---------- accepting a stream ---------- *)
 Definition invoked (st st' : sstate) : Prop := s_handled st' = s_handled st + 1.
 
+Lemma detach_fields st sid :
+  s_handled (detach st sid) = s_handled st /\ s_mode (detach st sid) = s_mode st /\ s_max (detach st sid) = s_max st.
+Proof. unfold detach. destruct (find_stream sid (s_active st)); cbn; auto. Qed.
+Lemma trunc_fields st sid :
+  let st' := if alive st then detach st sid else st in
+  s_handled st' = s_handled st /\ s_mode st' = s_mode st /\ s_max st' = s_max st.
+Proof. cbv zeta. destruct (alive st); [apply detach_fields|auto]. Qed.
+
 Lemma headers_step_handled cfg st sid ended fs st' ev :
   headers_step cfg st sid ended fs = (st', ev) ->
   s_handled st' = s_handled st \/
@@ -297,7 +305,7 @@ Proof.
   unfold headers_step, stream_error, with_active.
   destruct (read_meta _ fs) as [|l [|]] eqn:R.
   - intros H; inversion H; subst; cbn; auto.
-  - intros H; inversion H; subst; auto.
+  - intros H; inversion H; subst. left. apply (trunc_fields st sid).
   - destruct (Z.even sid || _) eqn:Eid.
     + intros H; inversion H; subst; cbn; auto.
     + apply orb_false_iff in Eid as [Ev El]. apply Z.leb_gt in El.
@@ -366,6 +374,8 @@ Proof.
 Qed.
 
 Definition bounded (cfg : config) (st : sstate) : Prop := lenZ (s_active st) <= c_maxs cfg.
+Lemma detach_len st sid : lenZ (s_active (detach st sid)) = lenZ (s_active st).
+Proof. unfold detach. destruct (find_stream sid (s_active st)); [cbn; apply set_stream_len|reflexivity]. Qed.
 
 (* the application finishing a stream (with or without a message) and a WINDOW_UPDATE never
    invoke a handler, never change the connection mode, never add an active stream and never
@@ -378,16 +388,15 @@ Proof.
   cbv zeta. unfold finish_op.
   destruct (find_stream sid (s_active st)) as [s|]; [|cbn; repeat split; lia].
   assert (Hd := del_stream_len sid (s_active st)).
-  destruct (2 <=? s); [cbn; repeat split; lia|].
-  destruct (c_tiny cfg).
-  - unfold out. destruct (alive st); cbn; repeat split; auto.
-  - destruct (alive st).
-    + destruct wr as [n|].
-      * destruct (0 <=? window cfg st sid - (5 + n)).
-        -- destruct (s =? 0); cbn; repeat split; auto.
-        -- cbn. rewrite set_stream_len. repeat split; auto; lia.
-      * destruct (s =? 0); cbn; repeat split; auto.
+  destruct (is_done s); [cbn; repeat split; lia|].
+  destruct (alive st); cbn [negb]; [|cbn; repeat split; lia].
+  destruct (c_tiny cfg); [cbn; repeat split; auto|].
+  destruct (detached s); [cbn; rewrite set_stream_len; repeat split; auto; lia|].
+  destruct wr as [n|].
+  - destruct (0 <=? window cfg st sid - (5 + n)).
+    + destruct (s =? 0); cbn; repeat split; auto.
     + cbn. rewrite set_stream_len. repeat split; auto; lia.
+  - destruct (s =? 0); cbn; repeat split; auto.
 Qed.
 Lemma window_op_facts cfg st sid inc :
   let r := exec_op cfg st (OWindow sid inc) in
@@ -397,12 +406,30 @@ Proof.
   cbv zeta. cbn [exec_op]. destruct (alive st); [|cbn; repeat split; lia].
   destruct (find_stream sid (s_active st)) as [s|]; [|cbn; repeat split; lia].
   assert (Hd := del_stream_len sid (s_active st)).
-  destruct ((3 <=? s) && (0 <=? window cfg st sid + inc)).
-  - destruct (s =? 3); cbn; repeat split; auto.
+  destruct (is_blocked s && (0 <=? window cfg st sid + inc)).
+  - destruct (rst_after s); cbn; repeat split; auto.
   - cbn. repeat split; auto; lia.
 Qed.
 Lemma alive_mode st st' : s_mode st' = s_mode st -> alive st' = alive st.
 Proof. unfold alive. intros ->. reflexivity. Qed.
+(* an empty DATA frame: no handler, no new stream; the only way it changes the mode is the panic *)
+Lemma data_op_facts st sid ended :
+  let r := data_op st sid ended in
+  s_handled (fst r) = s_handled st /\ lenZ (s_active (fst r)) <= lenZ (s_active st) /\
+  negb (alive (fst r)) = negb (alive st) || down_event (snd r) /\
+  (s_mode st <> 0 -> s_mode (fst r) <> 0).
+Proof.
+  cbv zeta. unfold data_op.
+  destruct (find_stream sid (s_active st)) as [s|]; [|cbn; rewrite orb_false_r; repeat split; auto; lia].
+  assert (Hd := del_stream_len sid (s_active st)).
+  destruct (read_done s).
+  - unfold out, alive. cbn [fst snd with_active s_handled s_active s_mode]. destruct (s_mode st =? 0); cbn; repeat split; auto.
+  - destruct ended; cbn [negb]; [|cbn; rewrite orb_false_r; repeat split; auto; lia].
+    destruct ((s =? 0) || (s =? 20)); [cbn; rewrite set_stream_len, orb_false_r; repeat split; auto; lia|].
+    destruct (eof_put s).
+    + cbn. rewrite orb_false_r. repeat split; auto; lia.
+    + cbn. rewrite set_stream_len, orb_false_r. repeat split; auto; lia.
+Qed.
 
 Lemma exec_op_bounded cfg st o : bounded cfg st -> bounded cfg (fst (exec_op cfg st o)).
 Proof.
@@ -413,7 +440,7 @@ Proof.
       revert H. unfold headers_step, stream_error, with_active.
       destruct (read_meta _ fs) as [|l [|]].
       * intros H; inversion H; subst; cbn. pose proof (del_stream_len sid (s_active st)). lia.
-      * intros H; inversion H; subst; auto.
+      * intros H; inversion H; subst. destruct (alive st); [rewrite detach_len|]; auto.
       * destruct (Z.even sid || _); [intros H; inversion H; subst; cbn; auto|].
         destruct (decide_req _ _ _ l); intros H; inversion H; subst; cbn in *; auto. lia.
     + cbn. apply read_meta_full in R as (-> & Hp & _).
@@ -421,9 +448,7 @@ Proof.
       rewrite lenZ_app. unfold lenZ at 2. cbn. lia.
   - cbn. pose proof (del_stream_len sid (s_active st)). lia.
   - destruct (finish_op_facts cfg st sid None) as (_ & _ & H & _). lia.
-  - destruct (find_stream sid (s_active st)) as [s|]; [|exact B].
-    assert (Hd := del_stream_len sid (s_active st)). assert (Hs := set_stream_len sid 1 (s_active st)).
-    destruct s as [|[ [ | | ] | | ]|]; cbn; try lia; destruct ended; cbn; lia.
+  - destruct (data_op_facts st sid ended) as (_ & H & _). lia.
   - cbn. unfold lenZ in *. cbn. lia.
   - cbn. pose proof (del_stream_len sid (s_active st)). lia.
   - destruct (finish_op_facts cfg st sid (Some n)) as (_ & _ & H & _). lia.
@@ -455,7 +480,7 @@ Proof.
     + split; [exact Hh|]. revert H. unfold headers_step, stream_error, with_active.
       destruct (read_meta _ fs) as [|l [|]].
       * intros H; inversion H; subst; cbn; auto.
-      * intros H; inversion H; subst; auto.
+      * intros H; inversion H; subst. destruct (trunc_fields st sid) as (_ & M & _). cbv zeta in M. rewrite M. auto.
       * destruct (Z.even sid || _); [intros H; inversion H; subst; cbn; lia|].
         destruct (decide_req _ _ _ l); intros H; inversion H; subst; cbn; auto.
     + apply read_meta_full in R as (-> & Hp & _).
@@ -463,8 +488,7 @@ Proof.
       apply Z.eqb_eq in Hr. contradiction.
   - cbn. auto.
   - destruct (finish_op_facts cfg st sid None) as (H1 & H2 & _). rewrite H1, H2. auto.
-  - destruct (find_stream sid (s_active st)) as [s|]; [|auto].
-    destruct s as [|[ [ | | ] | | ]|]; cbn; auto; destruct ended; cbn; auto.
+  - destruct (data_op_facts st sid ended) as (H1 & _ & _ & H4). rewrite H1. auto.
   - cbn. split; [reflexivity|lia].
   - cbn. auto.
   - destruct (finish_op_facts cfg st sid (Some n)) as (H1 & H2 & _). rewrite H1, H2. auto.
@@ -505,7 +529,8 @@ Proof.
   unfold headers_step, stream_error, with_active, out, ev_abort, ev_rst, ev_hdr, alive.
   destruct (read_meta _ fs) as [|l [|]].
   - cbn [fst snd s_mode]. destruct (s_mode st =? 0); cbn; reflexivity.
-  - cbn [fst snd s_mode]. destruct (s_mode st =? 0); cbn; reflexivity.
+  - cbn [fst snd]. destruct (s_mode st =? 0) eqn:Em; [|cbn; rewrite Em; reflexivity].
+    destruct (detach_fields st sid) as (_ & M & _). rewrite M, Em. cbn. reflexivity.
   - destruct (Z.even sid || _).
     + cbn [fst snd s_mode]. destruct (s_mode st =? 0); cbn; reflexivity.
     + destruct (decide_req _ _ _ l); cbn [fst snd s_mode].
@@ -523,10 +548,7 @@ Proof.
   - apply headers_down.
   - cbn. rewrite orb_false_r. reflexivity.
   - destruct (finish_op_facts cfg st sid None) as (_ & H2 & _ & H4). rewrite H4, (alive_mode _ _ H2), orb_false_r. reflexivity.
-  - unfold out, with_active, ev_rst, alive.
-    destruct (find_stream sid (s_active st)) as [s|]; [|cbn; rewrite orb_false_r; reflexivity].
-    destruct s as [|[ [ | | ] | | ]|]; destruct ended; destruct (s_mode st =? 0) eqn:Em;
-      cbn; rewrite ?Em; reflexivity.
+  - apply (data_op_facts st sid ended).
   - cbn. rewrite orb_true_r. reflexivity.
   - unfold stream_error, out, with_active, ev_rst, alive. cbn [fst snd s_mode].
     destruct (s_mode st =? 0); cbn; reflexivity.
@@ -542,8 +564,7 @@ Proof.
   - exfalso. eapply Hn; reflexivity.
   - reflexivity.
   - apply (finish_op_facts cfg st sid None).
-  - destruct (find_stream sid (s_active st)) as [s|]; [|reflexivity].
-    destruct s as [|[ [ | | ] | | ]|]; try reflexivity; destruct ended; reflexivity.
+  - apply (data_op_facts st sid ended).
   - reflexivity.
   - reflexivity.
   - apply (finish_op_facts cfg st sid (Some n)).
@@ -676,6 +697,35 @@ Proof.
     + apply clause_exec; auto.
 Qed.
 
+(* the model never emits the panic event *)
+Lemma down_no_panic ev : down_event ev = false -> has_event 66 ev 8 = false.
+Proof. unfold down_event. intros H. apply orb_false_iff in H as [_ H]. exact H. Qed.
+Lemma headers_no_panic cfg st sid ended fs : has_event 66 (snd (headers_step cfg st sid ended fs)) 8 = false.
+Proof.
+  unfold headers_step, stream_error, with_active, out, ev_abort, ev_rst, ev_hdr.
+  destruct (read_meta _ fs) as [|l [|]]; cbn [snd]; try (destruct (alive st); reflexivity).
+  destruct (Z.even sid || _); [cbn [snd]; destruct (alive st); reflexivity|].
+  destruct (decide_req _ _ _ l); cbn [snd]; try (destruct (alive st); reflexivity).
+  destruct (alive st); [|reflexivity]. destruct (c_tiny cfg); [reflexivity|]. destruct ended; reflexivity.
+Qed.
+Lemma exec_no_panic cfg st o : has_event 66 (snd (exec_op cfg st o)) 8 = false.
+Proof.
+  destruct o as [sid ended fs|sid|sid|sid ended| |sid|sid n|sid inc]; cbn [exec_op].
+  - apply headers_no_panic.
+  - reflexivity.
+  - apply down_no_panic, (finish_op_facts cfg st sid None).
+  - unfold data_op, out, ev_rst. destruct (find_stream sid (s_active st)) as [s|]; [|reflexivity].
+    destruct (read_done s); [cbn [snd]; destruct (alive st); reflexivity|].
+    destruct (negb ended); [reflexivity|]. destruct ((s =? 0) || (s =? 20)); [reflexivity|].
+    destruct (eof_put s); reflexivity.
+  - reflexivity.
+  - unfold stream_error, out, ev_rst. cbn [snd]. destruct (alive st); reflexivity.
+  - apply down_no_panic, (finish_op_facts cfg st sid (Some n)).
+  - apply down_no_panic. pose proof (window_op_facts cfg st sid inc) as (_ & _ & _ & H). exact H.
+Qed.
+Lemma step_no_panic cfg st o : has_event 66 (snd (step cfg st o)) 8 = false.
+Proof. unfold step. destruct (_ || _); [reflexivity|apply exec_no_panic]. Qed.
+
 (* clause 10 (the admission situation classified on the model state) on a model trace *)
 Lemma clause_model_ok cfg p st w o :
   decode_op (c_limit cfg) w = Some o -> p_h p = s_handled st ->
@@ -683,12 +733,14 @@ Lemma clause_model_ok cfg p st w o :
   forallb okc (clause_model cfg st p w (hdr_obs (fst r) ++ snd r)) = true.
 Proof.
   intros Hd Rh. cbv zeta. unfold clause_model, hdr_obs. rewrite Hd. cbn [app].
+  rewrite forallb_app. apply andb_true_iff. split;
+    [|cbn [forallb okc fst snd Z.eqb Pos.eqb orb]; rewrite (step_no_panic cfg st o), andb_false_r; reflexivity].
   destruct o as [sid ended fs|sid|sid|sid ended| |sid|sid n|sid inc]; try reflexivity.
   cbn [forallb okc fst snd Z.eqb Pos.eqb orb]. rewrite andb_true_r.
-  destruct (alive st && legal_id (s_max st) sid && admissible (c_limit cfg) fs &&
+  destruct (alive st && negb (p_down p) && legal_id (s_max st) sid && admissible (c_limit cfg) fs &&
             (c_maxs cfg <=? lenZ (s_active st))) eqn:A; [|reflexivity].
   apply andb_true_iff in A as [A A4]. apply andb_true_iff in A as [A A3].
-  apply andb_true_iff in A as [A1 A2]. unfold alive in A1. apply Z.eqb_eq in A1. apply Z.leb_le in A4.
+  apply andb_true_iff in A as [A1 A2]. apply andb_true_iff in A1 as [A1 _]. unfold alive in A1. apply Z.eqb_eq in A1. apply Z.leb_le in A4.
   unfold step. rewrite A1. cbn [Z.eqb orb andb exec_op].
   rewrite (refused_over_limit cfg st sid ended fs A1 A2 A3 A4). cbn [fst snd s_handled negb orb].
   rewrite Rh, Z.ltb_irrefl. cbn [negb andb]. apply word_eqb_refl.
@@ -735,15 +787,15 @@ Qed.
    response HEADERS go out, the stream stays in the active set (state 3 / 4), so it still counts
    against MaxConcurrentStreams - refused_over_limit applies to the resulting state *)
 Theorem blocked_finish_keeps_stream cfg st sid n s :
-  s_mode st = 0 -> c_tiny cfg = false -> find_stream sid (s_active st) = Some s -> 0 <= s < 2 ->
-  window cfg st sid < 5 + n ->
+  s_mode st = 0 -> c_tiny cfg = false -> find_stream sid (s_active st) = Some s -> is_done s = false ->
+  detached s = false -> window cfg st sid < 5 + n ->
   let r := exec_op cfg st (OWriteFinish sid n) in
-  snd r = ev_hdr sid 1200 (-1) /\ s_active (fst r) = set_stream sid (3 + s) (s_active st) /\
+  snd r = ev_hdr sid 1200 (-1) /\ s_active (fst r) = set_stream sid (fin_blocked s) (s_active st) /\
   lenZ (s_active (fst r)) = lenZ (s_active st) /\ s_handled (fst r) = s_handled st /\
   s_mode (fst r) = 0 /\ s_max (fst r) = s_max st /\ window cfg (fst r) sid = window cfg st sid - (5 + n).
 Proof.
-  intros Hm Ht Hf Hs Hw. cbv zeta. cbn [exec_op]. unfold finish_op. rewrite Hf, Ht.
-  destruct (Z.leb_spec 2 s); [lia|]. unfold alive. rewrite Hm. cbn [Z.eqb].
+  intros Hm Ht Hf Hs Hdt Hw. cbv zeta. cbn [exec_op]. unfold finish_op. rewrite Hf, Ht, Hs, Hdt.
+  unfold alive. rewrite Hm. cbn [Z.eqb negb].
   destruct (Z.leb_spec 0 (window cfg st sid - (5 + n))); [lia|].
   cbn [fst snd with_active with_win s_active s_handled s_mode s_max]. rewrite set_stream_len.
   repeat split; auto. unfold window at 1. unfold with_active, with_win. cbn [s_win find_stream]. rewrite Z.eqb_refl. lia.
@@ -752,12 +804,12 @@ Qed.
 (* the WINDOW_UPDATE that lets the queued DATA out: END_STREAM trailers (and RST_STREAM(NO_ERROR)
    if the client had not half-closed) are written and only now the stream leaves the active set *)
 Theorem window_flushes_blocked cfg st sid inc s :
-  s_mode st = 0 -> find_stream sid (s_active st) = Some s -> 3 <= s -> 0 <= window cfg st sid + inc ->
+  s_mode st = 0 -> find_stream sid (s_active st) = Some s -> is_blocked s = true -> 0 <= window cfg st sid + inc ->
   exec_op cfg st (OWindow sid inc) =
-  (with_active st (del_stream sid (s_active st)), ev_hdr sid (-1) 0 ++ (if s =? 3 then ev_rst sid E_NO else [])).
+  (with_active st (del_stream sid (s_active st)), ev_hdr sid (-1) 0 ++ (if rst_after s then ev_rst sid E_NO else [])).
 Proof.
-  intros Hm Hf Hs Hw. cbn [exec_op]. unfold alive. rewrite Hm, Hf. cbn [Z.eqb].
-  destruct (Z.leb_spec 3 s); [|lia]. destruct (Z.leb_spec 0 (window cfg st sid + inc)); [|lia]. reflexivity.
+  intros Hm Hf Hs Hw. cbn [exec_op]. unfold alive. rewrite Hm, Hf, Hs. cbn [Z.eqb andb].
+  destruct (Z.leb_spec 0 (window cfg st sid + inc)); [|lia]. reflexivity.
 Qed.
 (* ... and a smaller one leaves everything as it was, but for the credit *)
 Theorem window_too_small cfg st sid inc s :
@@ -779,6 +831,30 @@ Lemma blocked_stream_witness :
   run [1; 4096; 0; 1] [good_req 1; [9; 1; 10]; good_req 3; [10; 1; 14]; good_req 5; [10; 1; 1]; good_req 7] =
   Some [[1; 1; 1; 9; 1; 0; 0; 1; 1; 2; 47; 115; -1]; [1; 1; 1; 1; 1; 1200; -1]; [1; 1; 3; 3; 3; 7; 0]; [1; 1; 3];
         [1; 1; 5; 3; 5; 7; 0]; [0; 1; 5; 1; 1; -1; 0; 3; 1; 0; 0]; [1; 2; 7; 9; 7; 0; 0; 1; 1; 2; 47; 115; -1]].
+Proof. vm_compute. reflexivity. Qed.
+
+(* ---------- a second END_STREAM for a finished stream ---------- *)
+(* a DATA frame with END_STREAM for a stream that has finished (streamDone) but is still in
+   t.activeStreams and has already been sent END_STREAM (states 6-8): handleData only guards
+   streamReadDone, s.write(recvMsg{err: io.EOF}) runs again and recvBuffer.put drops the message
+   (before 1b83f43 it freed the nil buffer of that message: a panic of the reader goroutine).
+   Nothing changes and nothing is written *)
+Theorem second_end_stream_dropped st sid s :
+  find_stream sid (s_active st) = Some s -> 6 <= s <= 8 -> data_op st sid true = (st, []).
+Proof.
+  intros F H. unfold data_op, eof_put, read_done. rewrite F.
+  assert (E : s = 6 \/ s = 7 \/ s = 8) by lia. destruct E as [->|[->| ->]]; reflexivity.
+Qed.
+(* no op of the model ever yields the panic event, whatever the state (clauses 11 / 12) *)
+Theorem model_never_panics cfg st o : has_event 66 (snd (step cfg st o)) 8 = false.
+Proof. apply step_no_panic. Qed.
+(* witness (client frames only): SETTINGS_INITIAL_WINDOW_SIZE = 0; HEADERS(1); DATA(1, END_STREAM);
+   the handler writes 15 bytes and returns (the response waits for window, the stream is
+   streamDone and still tracked); DATA(1, END_STREAM) again is dropped; stream 3 is refused
+   (stream 1 still counts) *)
+Lemma double_end_stream_witness :
+  run [1; 4096; 0; 1] [good_req 1; [4; 1; 1]; [9; 1; 10]; [4; 1; 1]; good_req 3] =
+  Some [[1; 1; 1; 9; 1; 0; 0; 1; 1; 2; 47; 115; -1]; [1; 1; 1]; [1; 1; 1; 1; 1; 1200; -1]; [1; 1; 1]; [1; 1; 3; 3; 3; 7; 0]].
 Proof. vm_compute. reflexivity. Qed.
 
 (* the literal reading "no handler for a request that carries an invalid content-type field" is
